@@ -66,4 +66,19 @@ PROPS = {
                         "canonical form lower-cases the names listed in RFC 4034 6.2 except NSEC next name (RFC 6840 5.1); RRSIG signer is lower-cased",
                         "values are those reachable by parsing RFC-valid wire data; constructors (new/builder APIs) are not separately driven"],
     },
+    "C04": {
+        "level": "exploration",
+        "features": ["hooks"],
+        "stages": [
+            {"mode": "native"},
+            {"mode": "asan", "scale": 0.1},
+        ],
+        "rule": "an evaluation is one ordered pair (with all triples over its group) of names in 5 representations (flat Vec, Bytes, slice, hand-compressed inside a "
+                "message, chain of parts), relative/uncertain names, labels, character strings, record data of every type (value groups built from near-neighbours: "
+                "case flips, +-1, label-boundary shifts) or whole records (TTL-only, owner-case-only, class, type, data variations), checked against the laws "
+                "reflexive/symmetric/eq=>hash/eq<=>cmp Equal/antisymmetric/transitive/representation-independent, the reference RFC 4034 6.1 comparator, and octet "
+                "order of reference-composed canonical RDATA; distinct = (kind, type, eq, cmp, canonical cmp, owner/type/ttl sameness) tuples observed",
+        "assumptions": ["for records with different owners the canonical record order must follow the canonical name order (RFC 4034 6.3 only orders RRs inside an RRset)",
+                        "equality of record data is only required to be coherent and insensitive to the ASCII case of embedded names; it need not coincide with canonical-form equality (NSEC next name)"],
+    },
 }
